@@ -11,7 +11,7 @@ package models
 //@     ite(n <= 0, "", gidTags(tags, names, n-1) + ite(n-1 != 0, ",", "") + names[n-1] + "=" + ite(has(tags, names[n-1]), tags[names[n-1]], ""))
 
 //@ func ToGroupID
-//@   props C06 C05
+//@   props C06
 //@   opt strings=seq
 //@   modifies nothing
 //@   ensures len(dims.TagNames) == 0 ==> result == GroupID(ite(dims.ByName, name, ""))
